@@ -246,9 +246,33 @@ def corpus_nonpositive_flux(rep):
                           f'flux <= 0 (fluxes {[float(v) for v in tbl["flux"]]})', {'finder': 'DAOStarFinder', 'corpus': 'F40', 'xycoords': xyc.tolist()})
 
 
+def corpus_nonpositive_convolved_peak(rep):
+    """corpus: the fixed reproduction of F76 (found by the thorough tier, seed 17) - a blank-sky position given through xycoords whose
+    flux is positive and whose shape statistics pass the filters, but whose convolved peak is <= 0: daofind_mag = NaN came back"""
+    from photutils.detection import DAOStarFinder
+    rs = np.random.RandomState(26)
+    yy, xx = np.mgrid[0:41, 0:41]
+    img = rs.normal(0, 0.3, (41, 41)) + 50 * np.exp(-((xx - 12) ** 2 + (yy - 14) ** 2) / (2 * 1.2 ** 2))
+    xyc = np.array([(12.0, 14.0), (29.0, 17.0)])
+    with warnings.catch_warnings():
+        warnings.simplefilter('ignore')
+        tbl = DAOStarFinder(threshold=2.0, fwhm=2.8, xycoords=xyc, sharplo=0.2, sharphi=1.0, roundlo=-1.0, roundhi=1.0)(img)
+    rep.case(('corpus-F76',), True, kind='corpus:xycoords-on-blank-sky')
+    rep.probe_only += 1
+    if tbl is None or len(tbl) < 1 or abs(float(tbl['xcentroid'][0]) - 12.0) > 0.5:
+        rep.violation('starfinder-contract:DAOStarFinder', 'DAOStarFinder: the star at a supplied position is not returned', {'corpus': 'F76', 'xycoords': xyc.tolist()})
+        return
+    for col in tbl.colnames:
+        if col != 'mag' and not np.isfinite(np.asarray(tbl[col], float)).all():
+            rep.violation(f'starfinder-nonfinite:{col}:DAOStarFinder', f'DAOStarFinder: the returned table has a non-finite `{col}` '
+                          f'({[float(v) for v in np.asarray(tbl[col], float)]}; fluxes {[float(v) for v in tbl["flux"]]})',
+                          {'finder': 'DAOStarFinder', 'corpus': 'F76', 'seed': 26, 'xycoords': xyc.tolist()})
+
+
 def starfinders(rep, drv, r, n):
     from photutils.detection import DAOStarFinder, IRAFStarFinder, StarFinder
     corpus_nonpositive_flux(rep)
+    corpus_nonpositive_convolved_peak(rep)
     lines, exps = [], []
     for k in range(n):
         img, pos = star_scene(r)
@@ -285,7 +309,8 @@ def starfinders(rep, drv, r, n):
             with warnings.catch_warnings():
                 warnings.simplefilter('ignore')
                 if name == 'DAOStarFinder':
-                    attrs = ('xcentroid', 'ycentroid', 'hx', 'hy', 'sharpness', 'roundness1', 'roundness2', 'peak', 'flux')
+                    # daofind_mag = -2.5 log10(convolved peak / threshold): NaN for a supplied position whose convolved peak is <= 0 (F76)
+                    attrs = ('xcentroid', 'ycentroid', 'hx', 'hy', 'sharpness', 'roundness1', 'roundness2', 'peak', 'flux', 'daofind_mag')
                     fin = np.ones(len(raw), bool)
                     for a in attrs:
                         fin &= np.isfinite(np.asarray(getattr(raw, a), float))
@@ -328,7 +353,11 @@ def starfinders(rep, drv, r, n):
                     if col == 'mag' and not colfin.all() and bool(np.all(np.asarray(tbl['flux'], float)[~colfin] <= 0)):
                         nanmag = True           # known finding F40: mag = -2.5 log10(flux) of a source with non-positive flux
                         continue
-                    ok = ok and bool(np.all(colfin))
+                    if not colfin.all():
+                        # "finite values": every column of every returned row (F76: daofind_mag of a blank-sky position given by xycoords)
+                        rep.violation(f'starfinder-nonfinite:{col}:{name}', f'{name}: the returned table has a non-finite `{col}` '
+                                      f'({[float(v) for v in np.asarray(tbl[col], float)]}; fluxes {[float(v) for v in tbl["flux"]]})',
+                                      {'finder': name, 'brightest': br, 'peakmax': pk, 'min_separation': msep, 'xycoords': None if xyc is None else xyc.tolist(), 'data': img.tolist()})
                 if name != 'StarFinder':
                     ok = ok and bool(np.all((tbl['sharpness'] >= f.sharplo) & (tbl['sharpness'] <= f.sharphi)))
                 if pk is not None:
